@@ -70,7 +70,7 @@ def owner(ctx) -> None:
         ctx.rep.inconclusive(rule, "Labware.history", "property not found")
     else:
         ctx.rep.touch(h)
-        ok = all(isinstance(r, ast.Call) and call_fname(r) in ("list", "tuple", "zip") or isinstance(r, (ast.ListComp, ast.List)) for r in return_exprs(h))
+        ok = all(isinstance(r, ast.Call) and (call_fname(r) in ("list", "tuple", "zip") or is_sym(r, "comp")) or isinstance(r, (ast.ListComp, ast.List)) for n, r in ctx.fv(h).returns())
         ctx.rep.check(ok, rule, f"{h.qualname}/return", "history returns a freshly built list", "history hands out an internal list", where=h.where())
 
 
@@ -133,7 +133,7 @@ def snapshot(ctx) -> None:
         ctx.rep.touch(vol)
         from .c02 import _is_copy
 
-        rets = return_exprs(vol)
+        rets = [t for n, t in ctx.fv(vol).returns()]
         ctx.rep.check(bool(rets) and all(_is_copy(r) for r in rets), rule, f"{vol.qualname}/return", "`volumes` returns a copy",
                       "`volumes` returns the live array: history entries and arrays obtained from `volumes` change with later operations", where=vol.where())
 
